@@ -42,6 +42,10 @@ def worker(args):
     if i % 3 == 0:
         p["extra_alpha"] = b"\x00\xff"
     g, case = tokens.base_case(chk, rng, p)
+    if i % 22 == 1:
+        # uncompressed tables of a large rule set: offsets beyond 32767 -> 32-bit elements
+        from . import c01
+        case = c01.large_case(g, rng, case["seed"])
     mode = i % 3
     f = {"ret": 25}
     if mode == 1:
